@@ -77,7 +77,8 @@ GRID = {
     "DistPearson5": [[PFv(2.0), PFv(3.0)], [PFv(0.5), PFv(1.0)], [PFv(1.0), PFv(2.0)], [PFv(5.0), PFv(0.5)]],
     "DistPearson6": [[PFv(2.0), PFv(3.0), PFv(1.5)], [PFv(0.5), PFv(2.0), PFv(1.0)], [PFv(1.0), PFv(1.0), PFv(2.0)],
                      [PFv(3.0), PFv(0.6), PFv(0.5)]],
-    "DistPoisson": [[PFv(0.5)], [PFv(3.0)], [PFv(15.0)], [PFv(800.0)], [PFv(22.5)], [PFv(60.0)], [PFv(2000.0)], [PFv(7.5)],
+    "DistPoisson": [[PFv(0.5)], [PFv(3.0)], [PFv(15.0)], [PFv(800.0)], [PFv(501.0)], [PFv(22.5)], [PFv(60.0)], [PFv(2000.0)],
+                    [PFv(7.5)], [PFv(530.0)],
                     [PFv(30.0)], [PFv(200.0)], [PFv(500.0)], [PFv(730.0)]],      # exp(-rate) subnormal from 708, 0.0 from 745
     "DistTriangular": [[PFv(1.0), PFv(2.0), PFv(4.0)], [PFv(1.0), PFv(1.0), PFv(2.0)], [PFv(1.0), PFv(2.0), PFv(2.0)],
                        [PFv(-2.0), PFv(0.5), PFv(3.0)], [PFv(0.0), PFv(0.001), PFv(1.0)], [PIv(1), PIv(2), PIv(4)]],
@@ -230,6 +231,7 @@ def gen_calls(rng, cname, ps):
             ks.add(rng.randint(lo, top))
         if hi is None:
             ks.update([171, 200, 400])           # factorials / powers beyond the float range
+            ks.update([90, 105, 114, 120])       # the last observations whose power rate ** k is finite for rates 500 .. 2000
         ks = sorted(ks)
         if (cname == "DistBinomial" and v[0] >= 500) or (cname == "DistNegBinomial" and v[0] >= 200):
             # exact big binomial coefficients are slow inside coqc: a handful of observations, the bulk included
@@ -342,6 +344,8 @@ def oracle_calls(case, res):
         v = float.fromhex(o[2])
         if meth == "probability_density" and v != v and extreme_argument(cname, ps, a):
             continue
+        if meth == "probability" and v > 1.0 + 1e-12:
+            out.append((f"probability-above-one:{cname}", f"{cname}{tuple(pval(p) for p in ps)}.probability({a!r}) = {v!r}"))
         if meth in ("probability_density", "probability"):
             if not v >= 0.0:
                 out.append((f"{meth}-negative:{cname}", f"{cname}{tuple(pval(p) for p in ps)}.{meth}({a!r}) = {v!r}"))
